@@ -5,7 +5,11 @@ Proved here: (1) the rollback target is the EARLIEST mispredicted frame over all
 (`check_simulation_consistency`), so no mispredicted frame below it is left un-resimulated;
 (2) through Properties/C11.lean the ring of every input queue holds the player's true stream
 (`C11_queue`, `C11_ring_value`) and through Properties/C03.lean a `Confirmed` input is read from
-the slot of exactly the requested frame. The composition over the network (L-peer / L-stream of
+the slot of exactly the requested frame; (3) `C01_detect`: for EVERY history of one player's queue
+no wrong prediction handed out since the last rollback goes unnoticed — `first_incorrect_frame` is
+NULL only if every prediction handed out for a frame that has meanwhile arrived was right, and
+otherwise names a frame with a real mismatch before which every handed-out prediction was right,
+so rolling back to it (or earlier, (1)) re-simulates every frame that used a wrong value. The composition over the network (L-peer / L-stream of
 DESIGN.md §7) is NOT proved: on that level the property is decided by the monitor on
 implementation traces plus trace acceptance of the model (`_partial` in the sense of DESIGN.md).
 -/
@@ -103,3 +107,23 @@ theorem C01_earliest_incorrect (s : SyncLayer) (disconnectFrame : Frame) :
   exact ⟨this.1, fun h => (this.2 h).2⟩
 
 end Ggrs.SyncLayer
+
+namespace Ggrs
+open InputQueue
+
+/-- **C01, misprediction detection (queue level, all histories).** `st.H` is the list of
+(frame, value) pairs `input` has answered with status Predicted since the last
+`reset_prediction`. In every reachable state: if `first_incorrect_frame` is NULL, every one of
+them whose frame has arrived by now was right; otherwise `first_incorrect_frame` is a received
+frame whose real value differs from the prediction, and every predicted answer for an earlier
+frame was right. -/
+theorem C01_detect (pr : Predictor) (st : QState) (hr : QStar pr ⟨InputQueue.new, {}, []⟩ st) :
+    (st.q.firstIncorrectFrame = NULL_FRAME →
+      ∀ p ∈ st.H, p.1 < st.s.vals.length → st.s.vals.getD p.1.toNat 0 = p.2) ∧
+    (st.q.firstIncorrectFrame ≠ NULL_FRAME →
+      ∃ g : Nat, st.q.firstIncorrectFrame = (g : Int) ∧ g < st.s.vals.length ∧
+        st.s.vals.getD g 0 ≠ st.q.prediction.input ∧
+        ∀ p ∈ st.H, p.1 < (g : Int) → st.s.vals.getD p.1.toNat 0 = p.2) :=
+  PInv_detect pr st.q st.s st.H (PInv_run pr _ st (PInv_new pr) hr)
+
+end Ggrs
